@@ -189,7 +189,15 @@ impl Gen {
                 let m = 1 + self.rng.below(6);
                 let t = self.n_tmp;
                 self.n_tmp += 1;
-                self.src.push_str(&format!("var i{t} = 0\nwhile i{t} < {m} {{\n  let g = \"g\" .. i{t}\n  i{t} = i{t} + 1\n}}\n"));
+                let extra = match self.rng.below(6) {
+                    0 => "  let gc: channel<string> = channel()\n  gc.write(g)\n",
+                    1 => "  let gp = Pt(g, [g])\n",
+                    2 => "  let ge = Tr.Leaf(g)\n",
+                    3 => "  let gf = () -> g .. \"?\"\n",
+                    4 => "  let ga = [[g], [g, g]]\n",
+                    _ => "",
+                };
+                self.src.push_str(&format!("var i{t} = 0\nwhile i{t} < {m} {{\n  let g = \"g\" .. i{t}\n{extra}  i{t} = i{t} + 1\n}}\n"));
             }
             _ => {
                 let s = self.some_str();
@@ -237,7 +245,29 @@ pub fn mover_program(kind: usize, n: usize) -> String {
     s.push_str(&format!("let src: array<string> = [{}]\n", elems.join(", ")));
     // some garbage so that the heap is worth collecting
     s.push_str("var w = 0\nwhile w < 4 {\n  let g = \"junk\" .. w\n  w = w + 1\n}\n");
-    match kind % 4 {
+    match kind % 9 {
+        4 => {
+            // freshly allocated wrappers (born during marking) around an old value that has just left the heap
+            s.push_str("type Tw = | Leaf(string) | Other(int)\nlet keep: array<Tw> = []\n");
+            s.push_str("while src.len() > 0 {\n  keep.push(Tw.Leaf(src.pop()))\n}\n");
+            s.push_str("for w in keep {\n  match w {\n    .Leaf(x) -> println(x)\n    .Other(n) -> println(n)\n  }\n}\n");
+        }
+        5 => {
+            s.push_str("let keep: array<Bx> = []\n");
+            s.push_str("while src.len() > 0 {\n  keep.push(Bx(src.pop(), 1))\n}\nfor b in keep {\n  println(b.name)\n}\n");
+        }
+        6 => {
+            s.push_str("let keep: array<array<string>> = []\n");
+            s.push_str("while src.len() > 0 {\n  keep.push([src.pop()])\n}\nprintln(keep)\n");
+        }
+        7 => {
+            s.push_str("let fs: array<int -> string> = []\n");
+            s.push_str("while src.len() > 0 {\n  let cur = src.pop()\n  fs.push((z: int) -> cur .. \"!\")\n}\nfor f in fs {\n  println(f(0))\n}\n");
+        }
+        8 => {
+            s.push_str("let keep: array<(string, int)> = []\n");
+            s.push_str("while src.len() > 0 {\n  keep.push((src.pop(), 1))\n}\nfor p in keep {\n  match p {\n    (a, b) -> println(a)\n  }\n}\n");
+        }
         0 => {
             s.push_str("let dst: channel<string> = channel()\n");
             s.push_str("while src.len() > 0 {\n  dst.write(src.pop())\n}\n");
@@ -484,6 +514,13 @@ pub fn run_scheduled(src: &str, sched: &Sched, validate: bool, max_steps: u64) -
                     }
                 }
                 check_snap(&a, "after a collector increment", &mut ro);
+                if let Some(t) = rt.iter_threads_mut().next() {
+                    let (hs, _) = verif_gc::heap_bytes(t);
+                    let rc = verif_gc::heap_recount(t);
+                    if hs != rc && ro.cycle_spec.len() < 3 {
+                        ro.cycle_spec.push(format!("heap accounting drift after a collector increment (VM step {}): heap_size (which paces the collector) is {hs} but the heap list holds {rc} bytes", ro.vm_steps));
+                    }
+                }
                 ro.cases.push((format!("gc step {} {}", rn.canon(&b), rn.canon(&a)), "ok".into()));
             }
         } else if k > 0 {
